@@ -7,6 +7,7 @@ M = 'pybufrkit.encoder.'
 
 
 def register(reg):
+    register_sections(reg)
     add = reg.add
     add(Contract(M + 'nbits_for_uint', {'x': INT}, returns=INT,
                  requires=['1 <= x', 'x < pow2(63)'],
@@ -231,15 +232,130 @@ def register(reg):
                            'is_bool(bufr_message._is_compressed.value)', 'is_int(bufr_message._n_subsets.value)', '%s >= 1' % MSG_N,
                            'is_ref(section_parameter.value)', 'refof(section_parameter.value) > 0',
                            'len(aslist_vv(section_parameter.value)) == %s' % MSG_N],
-                 modifies=['bufr_message.table_group_key', 'section_parameter.value', 'elems_of(aslist_vv(section_parameter.value))'],
+                 modifies=['bufr_message.table_group_key', 'section_parameter.value', 'elems_of(aslist_vv(section_parameter.value))',
+                           'bit_writer.bit_stream.pos', 'bit_writer.bit_stream.bits', 'bit_writer.bit_stream.len'],
                  loops={0: Loop(invariants=['state != None', 'state is entry(state)', 'gh(state, "walks") == entry(gh(state, "walks")) + _i0',
                                             'not state.is_compressed', 'state.n_subsets == %s' % MSG_N,
                                             'len(%s) == %s' % (DALL, MSG_N), 'len(%s) == %s' % (VALL, MSG_N), 'len(%s) == %s' % (LALL, MSG_N),
-                                            '%s is entry(%s)' % (DALL, DALL), '%s is entry(%s)' % (VALL, VALL), '%s is entry(%s)' % (LALL, LALL)],
-                                modifies=WALK_MOD)},
-                 ensures=['is_ref(section_parameter.value)', 'asref(refof(section_parameter.value), "TemplateData").is_compressed == %s' % MSG_C,
+                                            '%s is entry(%s)' % (DALL, DALL), '%s is entry(%s)' % (VALL, VALL), '%s is entry(%s)' % (LALL, LALL),
+                                            'wlen(bit_writer) >= entry(wlen(bit_writer))',
+                                            'prefix_same(wbits(bit_writer), entry(wbits(bit_writer)), entry(wlen(bit_writer)))'],
+                                modifies=WALK_MOD + ['bit_writer.bit_stream.pos', 'bit_writer.bit_stream.bits', 'bit_writer.bit_stream.len'])},
+                 ensures=['is_ref(section_parameter.value)',
+                          # the walk only appends to the stream: what was written before it is still there
+                          'wlen(bit_writer) >= old(wlen(bit_writer))', 'prefix_same(wbits(bit_writer), old(wbits(bit_writer)), old(wlen(bit_writer)))', 'asref(refof(section_parameter.value), "TemplateData").is_compressed == %s' % MSG_C,
                           # the value lists handed in are the ones the template data carries: used as they are
                           'asref(refof(section_parameter.value), "TemplateData").decoded_values_all_subsets is old(aslist_vv(section_parameter.value))'],
                  raises=WALK_ERR, serves=['C02', 'C06'],
                  note='encoder driver: state built from the message\'s flag / count and the given value lists; per subset a context switch, '
                       'the value cursor at 0, and one walk'))
+
+
+def register_sections(reg):
+    """Encoder.process_unexpanded_descriptors / process_section (C02, C04): F X Y packing, padding, length back-patch, honour mode"""
+    from contracts.bufr import layout
+    add = reg.add
+    ENC = Ref('Encoder')
+    W = Ref('BitStringBitWriter')
+    SEC = Ref('BufrSection')
+    MSG = Ref('BufrMessage')
+    P0 = 'old(wlen(bit_writer))'
+    BITS = 'wbits(bit_writer)'
+    IDS = 'aslist_i(section_parameter.value)'
+    FITS = ('(0 <= select(%s, k) and select(%s, k) // 100000 < 4 and select(%s, k) // 1000 %% 100 < 64 and select(%s, k) %% 1000 < 256)'
+            % (IDS, IDS, IDS, IDS))
+    UNFIT = 'exists(k, 0, len(%s), not %s)' % (IDS, FITS)
+
+    def fxy(ids, k, base):
+        return ('U(%s, %s + 16 * %s, 2) == select(%s, %s) // 100000 and U(%s, %s + 16 * %s + 2, 6) == select(%s, %s) // 1000 %% 100 and '
+                'U(%s, %s + 16 * %s + 8, 8) == select(%s, %s) %% 1000' % (BITS, base, k, ids, k, BITS, base, k, ids, k, BITS, base, k, ids, k))
+    add(Contract(M + 'Encoder.process_unexpanded_descriptors', {'self': ENC, 'bit_writer': W, 'section_parameter': Ref('SectionParameter')},
+                 requires=['bit_writer != None', 'section_parameter != None', 'is_ref(section_parameter.value)', 'refof(section_parameter.value) > 0'],
+                 modifies=['bit_writer.bit_stream.bits', 'bit_writer.bit_stream.len'],
+                 locals={'@iter:section_parameter.value': ListT(INT), 'descriptor': Ref('Descriptor')},
+                 loops={0: Loop(invariants=['wlen(bit_writer) == %s + 16 * _i0' % P0, 'prefix_same(%s, old(%s), %s)' % (BITS, BITS, P0),
+                                            'forall(k, 0, _i0, %s)' % FITS,
+                                            'forall(k, 0, _i0, %s)' % fxy(IDS, 'k', P0)],
+                                modifies=['bit_writer.bit_stream.bits', 'bit_writer.bit_stream.len'],
+                                locals={'descriptor': Ref('Descriptor'), 'descriptor_id': INT})},
+                 ensures=['wlen(bit_writer) == %s + 16 * len(%s)' % (P0, IDS), 'prefix_same(%s, old(%s), %s)' % (BITS, BITS, P0),
+                          'forall(k, 0, len(%s), %s)' % (IDS, fxy(IDS, 'k', P0))],
+                 raises={'ValueError': UNFIT}, must_raise=[('ValueError', UNFIT)],
+                 serves=['C02', 'C04'],
+                 note='each descriptor id is packed as F:2 X:6 Y:8 bits, in list order; an id whose F / X / Y does not fit 2 / 6 / 8 bits is refused'))
+
+    PS = 'section._params'
+
+    def par(q):
+        return 'select(%s, %s)' % (PS, q)
+    HAS_LEN = '(len(%s) >= 1 and select(%s, 0).name == "section_length")' % (PS, PS)
+    HAS_TD = 'exists(q, 0, len(%s), select(%s, q).type == "template_data")' % (PS, PS)
+    TD_READY = ('bufr_message._is_compressed != None and bufr_message._n_subsets != None and '
+                'is_bool(bufr_message._is_compressed.value) and is_int(bufr_message._n_subsets.value) and '
+                'ival(bufr_message._n_subsets.value) >= 1')
+    DECL = 'old(ival(select(%s, 0).value))' % PS
+    RECOMP = '(self.ignore_declared_length or %s == 0)' % DECL
+    EDV = 'ival(bufr_message._edition.value)'
+    CONTENT = '(at_exit(0, wlen(bit_writer)) - %s)' % P0
+    PADDED = 'ite(%s <= 3, (%s + 15) // 16 * 16, (%s + 7) // 8 * 8)' % (EDV, CONTENT, CONTENT)
+
+    def typed(q):
+        v = '%s.value' % par(q)
+        return ('implies(%s.type == "uint" or %s.type == "int", is_int(%s)) and implies(%s.type == "bool", is_bool(%s)) and '
+                'implies(%s.type == "bytes", is_byt(%s) or is_txt(%s)) and implies(%s.type == "bin", is_txt(%s) and is_binstr(tval(%s))) and '
+                'implies(%s.type == "unexpanded_descriptors", is_ref(%s) and refof(%s) > 0) and '
+                'implies(%s.type == "template_data", is_ref(%s) and refof(%s) > 0 and len(aslist_vv(%s)) == ival(bufr_message._n_subsets.value))'
+                % (par(q), par(q), v, par(q), v, par(q), v, v, par(q), v, v, par(q), v, v, par(q), v, v, v))
+    NO_ED = 'not phas(section, "edition")'
+    WALK_ONLY = {k: HAS_TD for k in ('AssertionError', 'NotImplementedError', 'StopIteration', 'IndexError', 'TypeError',
+                                     'KeyError', 'AttributeError', 'IOError', 'OSError')}
+    add(Contract(M + 'Encoder.process_section', {'self': ENC, 'bufr_message': MSG, 'bit_writer': W, 'section': SEC}, returns=INT,
+                 requires=layout() + ['bufr_message != None', 'bit_writer != None',
+                                      'forall(q, 0, len(%s), %s)' % (PS, typed('q')),
+                                      'implies(%s, %s)' % (HAS_TD, TD_READY),
+                                      'implies(%s, forall(q, 0, len(%s), %s.name != "is_compressed" and %s.name != "n_subsets" and '
+                                      '%s is not bufr_message._is_compressed and %s is not bufr_message._n_subsets))'
+                                      % (HAS_TD, PS, par('q'), par('q'), par('q'), par('q')),
+                                      # the edition decides the padding rule: it was set by section 0, or this section carries it
+                                      'implies(%s, bufr_message._edition != None and is_int(bufr_message._edition.value) and '
+                                      'bufr_message._edition.name == "edition")' % NO_ED,
+                                      'forall(q, 0, len(%s), implies(%s.name == "edition", %s.type == "uint" and %s.as_property))' % (PS, par('q'), par('q'), par('q')),
+                                      'implies(%s, is_int(select(%s, 0).value) and 0 <= ival(select(%s, 0).value) and ival(select(%s, 0).value) < pow2(24))' % (HAS_LEN, PS, PS, PS)],
+                 modifies=['section.bitpos_start', 'fields_of(section._params, "value")', 'bufr_message.*',
+                           'bit_writer.bit_stream.bits', 'bit_writer.bit_stream.len', 'bit_writer.bit_stream.pos',
+                           'lists(aslist_vv(select(%s, 0).value))' % PS],
+                 loops={0: Loop(invariants=['section.bitpos_start == %s' % P0, 'wlen(bit_writer) >= %s' % P0, 'implies(_i0 == 0, wlen(bit_writer) == %s)' % P0,
+                                            'uprefix_same(%s, old(%s), %s)' % (BITS, BITS, P0),
+                                            'implies(%s, %s)' % (HAS_TD, TD_READY),
+                                            'implies(%s, bufr_message._is_compressed is old(bufr_message._is_compressed) and '
+                                            'bufr_message._n_subsets is old(bufr_message._n_subsets))' % HAS_TD,
+                                            'implies(%s, bufr_message._edition is old(bufr_message._edition))' % NO_ED,
+                                            'implies(phas(section, "edition") and _i0 > pindex(section, "edition"), '
+                                            'bufr_message._edition is %s)' % par('pindex(section, "edition")'),
+                                            # only the template-data slot is rewritten (it becomes the TemplateData object)
+                                            'forall(q, 0, len(%s), implies(%s.type != "template_data", val_eq(%s.value, old(%s.value))))' % (PS, par('q'), par('q'), par('q')),
+                                            'forall(q, _i0, len(%s), val_eq(%s.value, old(%s.value)))' % (PS, par('q'), par('q')),
+                                            # the length field, written first, holds the declared value
+                                            'implies(%s and _i0 >= 1, wlen(bit_writer) >= %s + 24 and U(%s, %s, 24) == %s)' % (HAS_LEN, P0, BITS, P0, DECL)],
+                                modifies=['fields_of(section._params, "value")', 'bufr_message.*',
+                                          'bit_writer.bit_stream.bits', 'bit_writer.bit_stream.len', 'bit_writer.bit_stream.pos',
+                                          'lists(aslist_vv(select(%s, 0).value))' % PS],
+                                locals={'parameter': Ref('SectionParameter')})},
+                 ensures=['result == wlen(bit_writer) - %s' % P0, 'result >= 0', 'section.bitpos_start == %s' % P0, 'has_exit(0)',
+                          # the edition is known from here on (set by this section or an earlier one)
+                          'bufr_message._edition != None and is_int(bufr_message._edition.value) and bufr_message._edition.name == "edition"',
+                          'uprefix_same(%s, old(%s), %s)' % (BITS, BITS, P0),
+                          # whole octets; an even number of them for editions up to 3
+                          'result % 8 == 0', 'implies(%s <= 3 and (not %s or %s), (result // 8) %% 2 == 0)' % (EDV, HAS_LEN, RECOMP),
+                          # only zero bits as padding, and no more of them than needed
+                          'result >= %s' % PADDED, 'U(%s, %s + %s, %s - %s) == 0' % (BITS, P0, CONTENT, PADDED, CONTENT),
+                          'implies(not %s or %s, result == %s)' % (HAS_LEN, RECOMP, PADDED),
+                          # lengths recomputed: the declared length is the real extent, in the object and in the stream
+                          'implies(%s and %s, ival(select(%s, 0).value) == result // 8 and U(%s, %s, 24) == result // 8)' % (HAS_LEN, RECOMP, PS, BITS, P0),
+                          # lengths honoured: a longer declared section is zero-filled, a shorter one never returns normally
+                          'implies(%s and not %s, result == 8 * %s and U(%s, %s, 24) == %s and U(%s, %s + %s, result - %s) == 0)'
+                          % (HAS_LEN, RECOMP, DECL, BITS, P0, DECL, BITS, P0, PADDED, PADDED)],
+                 raises=dict(WALK_ONLY, PyBufrKitError=None, ValueError=None), serves=['C04', 'C02'],
+                 note='on return the section occupies whole octets (an even number for editions <= 3) with only zero bits as padding; recompute '
+                      'mode back-patches the real extent into the 24-bit length field, honour mode zero-fills up to the declared length and '
+                      'refuses a shorter one'))
